@@ -246,9 +246,11 @@ impl GrammarConfig {
         user_type_map = self
             .nt_type_defs
             .iter()
-            .fold(user_type_map, |mut acc, (nt, _u)| {
+            .fold(user_type_map, |mut acc, (nt, u)| {
                 // This allows to skip the user type on non-terminal occurrences
                 acc.insert(nt.to_string(), "%nt_type".to_string());
+                // The type a %nt_type declaration defines for the non-terminal
+                acc.insert(format!("%nt_type:{nt}"), u.to_string());
                 acc
             });
         if let Some(t) = &self.t_type_def {
